@@ -5,6 +5,7 @@ import (
 	"encoding/hex"
 	"encoding/json"
 	"fmt"
+	"math/rand"
 	"reflect"
 	"sort"
 	"strconv"
@@ -458,6 +459,8 @@ func Execute(spec *Spec, opt Options) *Result {
 	}
 	cur = r
 	defer func() { cur = nil }()
+	// $random/$shuffle draw from math/rand's global source: one run, one seed
+	rand.Seed(int64(spec.Seed)) //nolint:staticcheck // deliberate: reproducible global source
 	r.epochMs = opt.EpochMs
 
 	usesRegistry := spec.Kind == "reg-compile" || spec.Kind == "expr-registry"
@@ -1021,9 +1024,11 @@ func (r *runner) hashEvents(res *Result, s *engine.Sched) {
 		}
 	}
 	if DebugEvents {
+		var b strings.Builder
 		for _, ev := range s.Events {
-			res.Note += fmt.Sprintf("%d t%d op%d y%d %s -> %d\n", ev.Seq, ev.Task, ev.Op, ev.Yield, ev.Site, ev.Next)
+			fmt.Fprintf(&b, "%d t%d op%d y%d %s -> %d\n", ev.Seq, ev.Task, ev.Op, ev.Yield, ev.Site, ev.Next)
 		}
+		res.Note += b.String()
 	}
 	res.EventHash = hex.EncodeToString(h.Sum(nil))
 	res.SchedSig = hex.EncodeToString(s.SigSum()[:8])
